@@ -36,7 +36,7 @@ Section Checker.
   Definition cinit (t0 r0 : T) : cst T := mkC t0 r0 false 0 0 true None None 0.
 
   (* one output; [k]: the kind of the ERun event being processed, if any *)
-  Definition cout (k : option kind) (c : cst T) (o : out T) : option (cst T) :=
+  Definition cout (k : option (kind T)) (c : cst T) (o : out T) : option (cst T) :=
     match o with
     | OCbStart =>
         (* never started while stopped; never started while a previous invocation runs *)
@@ -44,7 +44,9 @@ Section Checker.
         else if c_clean c && negb (Nat.eqb (c_depth c) 0) then None
         else
           let r := match k with Some KSyncStop => false | _ => true end in
-          Some (mkC (c_now c) (c_rnd c) r (c_busy c) (S (c_depth c)) (c_clean c)
+          (* a callback that takes time: the clock has moved when it returns *)
+          let now' := match k with Some (KSyncClock t) => t | _ => c_now c end in
+          Some (mkC now' (c_rnd c) r (c_busy c) (S (c_depth c)) (c_clean c)
                     (c_start c) (c_prev c) (c_n c))
     | OCbEnd =>
         match c_depth c, c_busy c with
@@ -79,7 +81,7 @@ Section Checker.
     | OErr _ => Some c
     end.
 
-  Fixpoint couts (k : option kind) (c : cst T) (os : list (out T)) : option (cst T) :=
+  Fixpoint couts (k : option (kind T)) (c : cst T) (os : list (out T)) : option (cst T) :=
     match os with
     | [] => Some c
     | o :: os' => match cout k c o with Some c' => couts k c' os' | None => None end
@@ -150,6 +152,11 @@ Definition aok_Q (scale : Q) (ct jitter : Q) (st pv now rnd : Q) (n : nat) (d : 
     && Qle_bool (now - u) d && (if Qeq_bool u 0 then negb (Qle_bool d now) else true)
     (* if the deadline had been reached, at most one period after the current time *)
     && (if Qle_bool pv now then Qle_bool d (now + p + u) else true)
+    (* a whole number (>= 1) of (jittered) periods after the previous deadline, up to rounding *)
+    && (if negb (Qle_bool (Qabs jitter) 1) then true else   (* beyond 100% jitter the float factor 1 + jitter*(r-0.5) cancels badly *)
+        let k := Qfloor ((d - pv) / p + (1 # 2)) in
+        (* k >= 1 where a period exceeds the rounding unit (as for strict monotonicity above) *)
+        (if Qeq_bool scale 0 || Qle_bool m 2147483648 then (1 <=? k)%Z else (0 <=? k)%Z) && Qle_bool (Qabs (d - (pv + inject_Z k * p))) (4 * u))
     (* without jitter: on the grid start + k * period, up to accumulated rounding *)
     && (if Qeq_bool jitter 0 then
           let k := Qfloor ((d - st) / p + (1 # 2)) in
@@ -272,12 +279,18 @@ Definition trace_of_obs (o : obs) : option (list (list (out (option Z)))) :=
    binary64 bit patterns), events *)
 Definition c39_input : Type := (Z * Z * Z * Z * list (event Z))%type.
 
+Definition map_kind {A B} (f : A -> B) (k : kind A) : kind B :=
+  match k with
+  | KSync => KSync | KSyncStop => KSyncStop | KAsync => KAsync
+  | KSyncClock t => KSyncClock (f t)
+  end.
+
 Definition map_event {A B} (f : A -> B) (e : event A) : event B :=
   match e with
   | EClock t => EClock (f t)
   | ERand r => ERand (f r)
   | EStart sk => EStart (match sk with Some t => Some (f t) | None => None end)
-  | EStop => EStop | EFire => EFire | ERun k => ERun k | EDone => EDone
+  | EStop => EStop | EFire => EFire | ERun k => ERun (map_kind f k) | EDone => EDone
   end.
 
 Definition map_out {A B} (f : A -> B) (o : out A) : out B :=
